@@ -168,4 +168,37 @@ Proof.
   - apply HR in Hr. destruct (H r Hr) as [k [A B]]. exists k. split; [apply HK; exact A|exact B].
 Qed.
 
+(** *** hash buckets are transparent when equal values have equal hash keys (hash_respects_eq) *)
+Variable vhash : V -> list N.
+Hypothesis hash_respects_eq : forall x y, veq x y = true -> vhash x = vhash y.
+
+Lemma nl_eqb_refl : forall a, nl_eqb a a = true.
+Proof. induction a as [|x a IH]; cbn; [reflexivity|]. rewrite N.eqb_refl, IH. reflexivity. Qed.
+Lemma nll_eqb_refl : forall a, nll_eqb a a = true.
+Proof. induction a as [|x a IH]; cbn; [reflexivity|]. rewrite nl_eqb_refl, IH. reflexivity. Qed.
+
+Lemma thash_eq : forall a b, teq a b = true -> thash V vhash a = thash V vhash b.
+Proof.
+  unfold thash. induction a as [|x a IH]; destruct b as [|y b]; cbn; try discriminate; [reflexivity|].
+  intros H. apply andb_true_iff in H as [H1 H2]. rewrite (IH _ H2). f_equal.
+  destruct x, y; cbn in *; try discriminate; [apply hash_respects_eq; exact H1|reflexivity].
+Qed.
+
+Lemma same_bucket_of_eq : forall a b, teq a b = true -> same_bucket V vhash a b = true.
+Proof. intros a b H. unfold same_bucket. rewrite (thash_eq a b H). apply nll_eqb_refl. Qed.
+
+Lemma bucket_test : forall t x, same_bucket V vhash t x && teq t x = teq t x.
+Proof. intros t x. destruct (teq t x) eqn:E; [rewrite (same_bucket_of_eq t x E); reflexivity|apply andb_false_r]. Qed.
+
+Theorem containsH_is_contains : forall tuples t, containsH V veq vhash tuples t = contains tuples t.
+Proof.
+  unfold containsH, Model10.contains. induction tuples as [|x r IH]; intros t; cbn; [reflexivity|].
+  rewrite bucket_test, IH. reflexivity.
+Qed.
+
+Theorem put_tupleH_is_put_tuple : forall t tuples, put_tupleH V veq vhash t tuples = put_tuple t tuples.
+Proof.
+  induction tuples as [|x r IH]; cbn; [reflexivity|]. rewrite bucket_test, IH. reflexivity.
+Qed.
+
 End STORE.
